@@ -141,6 +141,10 @@ def k_attr(ctx, facts, env):
         for kind, o in objs.items():
             for n in sorted(set(dir(o)) | set(extra)):
                 queries.append((kind, o, n))
+        # class objects whose type is a metaclass (Enum classes, ABCs, custom metaclasses): the `type` branch by isinstance
+        for label, o in ob.metaclass_bearing_classes().items():
+            for n in sorted(set(dir(o)) | set(extra)):
+                queries.append((ob.kind_of(o), o, n))
         out = ctx.driver("sbx", [tables_line(facts["unsafe"])] + [
             f"attr {'other' if k == 'str' else k} {hexname(n)}" for k, _, n in queries])[1:]
         for (kind, o, n), ln in zip(queries, out):
@@ -590,9 +594,9 @@ def first_unsafe_step(value, chain, form):
     return None
 
 
-SECONDARY_BASES = ("fr", "co", "tb", "cr", "ag", "rz", "dynall", "tup[0]", "d.o", "lst[0]")
-CORE_PATHS = ("attr-filter-lying-startswith", "attr-filter-lying-eq", "subscript-str-returns-lying", "macro-param-named-loop", "real-loop-variable", "dot", "subscript", "attr-filter", "call", "format-attr", "format-stored", "map-attribute", "subscript-strsubclass",
-              "sort-multi", "loop-over", "index-dotted", "trans-variable")
+SECONDARY_BASES = ("EnumMember", "AbcC", "EnumC", "MetaC", "dyn", "bm", "fr", "co", "tb", "cr", "ag", "rz", "dynall", "tup[0]", "d.o", "lst[0]")
+CORE_PATHS = ("loop-over", "attr-filter-lying-startswith", "subscript-str-returns-lying", "macro-param-named-loop", "dot", "subscript",
+              "attr-filter", "call", "format-attr", "format-stored", "map-attribute", "sort-multi")
 
 
 def hash_of(*parts):
@@ -794,7 +798,7 @@ def run(ctx):
         if "%(b)s" not in ob.ACCESS[path] and b != "o":
             continue          # a path with a fixed base object is one case, not one per base
         h = hash_of(b, n, path, mode)
-        if ctx.tier != "thorough" and path not in CORE_PATHS and (h % 16 != 0 or b in SECONDARY_BASES):
+        if ctx.tier != "thorough" and path not in CORE_PATHS and (h % 24 != 0 or b in SECONDARY_BASES):
             continue          # quick tier: secondary bases along the core paths only
         if ctx.tier != "thorough" and path in CORE_PATHS and b in SECONDARY_BASES and h % 2 != 0:
             continue          # quick tier: the core paths for every (base, name), the other paths sampled
